@@ -118,6 +118,14 @@ var tokenClasses = []tokenClass{
 	{"rs512-other-key-expired", func(svc string, _ string) (string, bool) {
 		return "Bearer " + sign(jwt.SigningMethodRS512, otherKey, svc, time.Now().Add(-time.Hour)), true
 	}},
+	{"basic-scheme", func(string, string) (string, bool) { return "Basic dXNlcjpwYXNzd29yZA==", true }},
+	{"token-scheme-forged-jwt", func(svc string, _ string) (string, bool) {
+		return "Token " + sign(jwt.SigningMethodRS512, otherKey, svc, time.Now().Add(time.Hour)), true
+	}},
+	{"bearer-forged-jwt-plus-extra-field", func(svc string, _ string) (string, bool) {
+		return "Bearer " + sign(jwt.SigningMethodRS512, otherKey, svc, time.Now().Add(time.Hour)) + " realm=chf", true
+	}},
+	{"bearer-garbage-plus-extra-fields", func(_ string, g string) (string, bool) { return "Bearer " + g + " x y", true }},
 	{"rs512-nrf-key-signature-truncated", func(svc string, _ string) (string, bool) {
 		s := sign(jwt.SigningMethodRS512, nrfKey, svc, time.Now().Add(time.Hour))
 		return "Bearer " + s[:len(s)-6], true
@@ -134,6 +142,7 @@ type RouteCase struct {
 	Services []string `json:"services"`
 	Params   []string `json:"params"`  // values substituted for :parameters
 	Garbage  string   `json:"garbage"` // token garbage
+	Late     bool     `json:"late"`    // OAuth2 becomes mandatory after the router was built (the real start-up order: NewServer, then NRF registration)
 }
 
 func validBody(supi string) []byte {
@@ -173,10 +182,16 @@ func judgeRoute(c RouteCase) *h.Verdict {
 	cfg := stackenv.BaseConfig(env.FM.URL(), env.RfPort, env.AbmfPort, env.PemFile, env.KeyFile)
 	cfg.Configuration.ServiceNameList = c.Services
 	verifapi.Init(cfg)
-	verifapi.SetOAuth(true, nrfPem)
+	if !c.Late {
+		verifapi.SetOAuth(true, nrfPem)
+	}
 	engine, err := verifapi.NewEngine()
 	if err != nil {
 		return v.Failf("HARNESS-router", "%v", err)
+	}
+	if c.Late {
+		v.Label("oauth-required-after-router-built")
+		verifapi.SetOAuth(true, nrfPem)
 	}
 	v.Label(fmt.Sprintf("config:%d-services", len(c.Services)))
 	routes := engine.Routes()
@@ -260,8 +275,10 @@ func TestC13AllConfigs(t *testing.T) {
 	r := h.NewRecorder("C13", "configs")
 	h.Enum(t, r, func(yield func(RouteCase) bool) {
 		for _, cfg := range allConfigs() {
-			if !yield(RouteCase{Services: cfg, Params: []string{"x", "imsi-208930000000001_1", "imsi-208930000000001smf-7"}, Garbage: "not.a.jwt"}) {
-				return
+			for _, late := range []bool{false, true} {
+				if !yield(RouteCase{Services: cfg, Params: []string{"x", "imsi-208930000000001_1", "imsi-208930000000001smf-7"}, Garbage: "not.a.jwt", Late: late}) {
+					return
+				}
 			}
 		}
 	}, judgeRoute, true)
@@ -270,7 +287,7 @@ func TestC13AllConfigs(t *testing.T) {
 func TestC13Random(t *testing.T) {
 	cfgs := allConfigs()
 	h.Run(t, "C13", "random", func(t *rapid.T) RouteCase {
-		c := RouteCase{Services: rapid.SampledFrom(cfgs).Draw(t, "services")}
+		c := RouteCase{Services: rapid.SampledFrom(cfgs).Draw(t, "services"), Late: rapid.Bool().Draw(t, "late")}
 		n := rapid.IntRange(1, 3).Draw(t, "nParams")
 		for i := 0; i < n; i++ {
 			c.Params = append(c.Params, rapid.StringMatching(`[a-zA-Z0-9_\-\.~]{1,24}`).Draw(t, "param"))
